@@ -537,6 +537,65 @@ fn protocol(rep: &mut Report) {
     );
 }
 
+// ------------------------------------------------------------------ a Decomposed inside somebody else's record
+/// the way a Decomposed is usually stored: as part of a larger record, flattened into it, next to keys it does not own
+/// (serde buffers such a record and replays it to the inner Deserialize impl)
+#[derive(serde::Serialize, serde::Deserialize, Debug, PartialEq)]
+struct Node {
+    name: String,
+    #[serde(flatten)]
+    xf: Decomposed<Vector3<f64>, Quaternion<f64>>,
+    #[serde(flatten)]
+    extra: std::collections::BTreeMap<String, f64>,
+}
+#[derive(serde::Serialize, serde::Deserialize, Debug, PartialEq)]
+struct Node2 {
+    #[serde(flatten)]
+    xf: Decomposed<Vector2<f32>, Basis2<f32>>,
+    id: u32,
+}
+#[derive(serde::Serialize, serde::Deserialize, Debug, PartialEq)]
+struct Nested {
+    a: Decomposed<Vector3<f64>, Quaternion<f64>>,
+    b: Vec<Decomposed<Vector3<f64>, Quaternion<f64>>>,
+    c: Option<Decomposed<Vector3<f64>, Quaternion<f64>>>,
+}
+fn embedded(rep: &mut Report) {
+    rep.cases("embedded", "S", "a Decomposed flattened into a record with 0, 1 or 2 keys of a sibling map, flattened next to an ordinary field, and as a field / list element / option of a record: JSON round trip", 3 + 2, Guard::states(5), |i, ctx| {
+        ctx.out(&i);
+        let g = |j: usize| f64::generic(j);
+        let d = |o: usize| Decomposed { scale: g(o), rot: Quaternion::new(g(o + 1), g(o + 2), g(o + 3), g(o + 4)), disp: Vector3::new(g(o + 5), g(o + 6), g(o + 7)) };
+        ctx.t();
+        let res: Result<(), String> = (|| {
+            if i < 3 {
+                let mut extra = std::collections::BTreeMap::new();
+                for k in 0..i {
+                    extra.insert(["mass", "zeta"][k].to_string(), g(9 + k));
+                }
+                let n = Node { name: "n".into(), xf: d(0), extra };
+                let js = serde_json::to_string(&n).map_err(|e| format!("serialize: {e}"))?;
+                let back: Node = serde_json::from_str(&js).map_err(|e| format!("deserialize {js}: {e}"))?;
+                if back != n { return Err(format!("{js} came back as {:?}", back)); }
+            } else if i == 3 {
+                let b: Basis2<f32> = cgmath::Rotation2::from_angle(Rad(0.7f32));
+                let n = Node2 { xf: Decomposed { scale: 1.5, rot: b, disp: Vector2::new(0.25, -3.0) }, id: 7 };
+                let js = serde_json::to_string(&n).map_err(|e| format!("serialize: {e}"))?;
+                let back: Node2 = serde_json::from_str(&js).map_err(|e| format!("deserialize {js}: {e}"))?;
+                if back != n { return Err(format!("{js} came back as {:?}", back)); }
+            } else {
+                let n = Nested { a: d(0), b: vec![d(3), d(5)], c: Some(d(8)) };
+                let js = serde_json::to_string(&n).map_err(|e| format!("serialize: {e}"))?;
+                let back: Nested = serde_json::from_str(&js).map_err(|e| format!("deserialize {js}: {e}"))?;
+                if back != n { return Err(format!("{js} came back as {:?}", back)); }
+            }
+            Ok(())
+        })();
+        if let Err(e) = res {
+            ctx.fail(&key("Decomposed/embedded/roundtrip"), || e);
+        }
+    });
+}
+
 fn main() {
     let mut rep = Report::from_args(P);
     rep.assume("two formats: the harness's own token format (records struct / field / newtype / bit-exact scalar tokens; replays arbitrary token lists into the real Deserialize impls) and serde_json with float_roundtrip; struct *names* are not part of the statement and not judged, nor is the name of Basis2/Basis3's private field");
@@ -547,5 +606,6 @@ fn main() {
     roundtrip::<f32>(&mut rep, &f32c);
     roundtrip::<i32>(&mut rep, &i32c);
     protocol(&mut rep);
+    embedded(&mut rep);
     std::process::exit(rep.finish());
 }
